@@ -3,8 +3,11 @@
 Each `Load(md)` edge writes the description as a real JSON file into a temporary directory and loads it
 through a real WorldFromFileHandle stored in a real ResourceMap (file1: key 'w'; file2: key 'worlds/w1', i.e.
 below an implicitly created map), or feeds the resolved dict to populate_world_from_dict (dict: through a
-WorldHandle; bare: on a fresh World).  `Enable` sets dispatch_enabled = True.  Observations are canonical
-tuples: objects are named by identity lookup (never by address), unordered things are sorted bags."""
+WorldHandle; bare: on a fresh World).  `Enable` sets dispatch_enabled = True; `Access` reaches the cached world
+again through handle() and resource_map[key]; `ClearHandle`, `Disturb` (components of the first world mutate
+their list/dict arguments in place, the resource handles are cleared), `Rewrite` (the file now holds AltDesc)
+and `Reload` (the same handle object loads again) form the second round.  Observations are canonical tuples:
+objects are named by identity lookup (never by address), unordered things are sorted bags."""
 import importlib
 import json
 import os
@@ -14,7 +17,7 @@ import tempfile
 from ..replay import guarded, exc_name
 
 MOD = 'harness.adapters.wl_types'
-STR_IDS = {1: 'hero', 2: '1'}       # <<"s", k>>; "1" is a string, not the integer 1
+STR_IDS = {0: '', 1: 'hero', 2: '1'}       # <<"s", k>>; "" is falsy but an id; "1" is a string, not the integer 1
 AUTO = ('auto', 0)
 NOENT = ('-', 0)
 TAG = {'obj': '', 'res': 'res', 'handle': 'handle'}
@@ -39,9 +42,10 @@ def skey(x):
 
 
 class WorldLoadAdapter:
-    def __init__(self, desper, shapes, workdir=None):
+    def __init__(self, desper, shapes, altdesc=None, workdir=None):
         self.desper = desper
         self.shapes = shapes
+        self.altdesc = altdesc
         # One mkdtemp directory per adapter, inside the check's scratch directory (removed by Result.finish);
         # the JSON file itself lives only for the duration of one Load.  (rmdir costs 3 ms here: not per step.)
         self.dir = tempfile.mkdtemp(prefix='verif-c15-', dir=workdir)
@@ -54,11 +58,16 @@ class WorldLoadAdapter:
         class RecHandle(desper.Handle):
             def __init__(self, path):
                 self.path = path
-                self.value = None
+                self.gen = 1            # as `gen` in the model: one more with every clear()
+                self.values = {}        # generation -> the object loaded in it (a fresh, unique one)
 
             def load(self):
-                self.value = types.Rec(self.path)       # a fresh, unique resource object
-                return self.value
+                self.values[self.gen] = types.Rec(self.path)
+                return self.values[self.gen]
+
+            def clear(self):
+                self.gen += 1
+                super().clear()
         self.RecHandle = RecHandle
 
     # -- description -> JSON / dict ---------------------------------------------------------------
@@ -75,7 +84,7 @@ class WorldLoadAdapter:
 
     @staticmethod
     def py_id(i):
-        return None if i == AUTO else STR_IDS[i[1]] if i[0] == 's' else i[1]
+        return None if i == AUTO else STR_IDS[i[1]] if i[0] == 's' else False if i[0] == 'b' else i[1]
 
     def file_json(self, desc, sparse):
         """sparse: empty lists / absent ids are left out (the loader's .get defaults) instead of written."""
@@ -128,8 +137,9 @@ class WorldLoadAdapter:
         for path, h in self.env['handles'].items():
             if arg is h:
                 return ('hdl', path)
-            if h.value is not None and arg is h.value:
-                return ('res', path)
+            for k, v in h.values.items():
+                if arg is v:
+                    return ('res', '%s#%d' % (path, k))
         try:
             return ('json', json.dumps(arg, sort_keys=True))
         except TypeError:
@@ -157,24 +167,72 @@ class WorldLoadAdapter:
 
     # -- protocol -------------------------------------------------------------------------------------
     def reset(self, init):
-        self.desc = init['desc']
-        self.explicit = {(type(p).__name__, p) for p in (self.py_id(e['id']) for e in self.desc['ents'] if e['comps'])
-                         if p is not None}
+        self.set_desc(init['desc'])
         self.env = None
         self.mw.object_from_string.cache_clear()
 
-    def step(self, name, args, pre):
-        if name == 'Load':
-            del self.types.LOG[:]       # the log is cumulative over Load; Enable, like w.log in the model
-            return self.load(args[0])
-        if name == 'Enable':
-            env = self.env
+    def set_desc(self, desc):
+        self.desc = desc
+        self.explicit = {(type(p).__name__, p) for p in (self.py_id(e['id']) for e in desc['ents'] if e['comps'])
+                         if p is not None}
 
+    def step(self, name, args, pre):
+        env = self.env
+        if name == 'Load':
+            return self.load(args[0])
+        if name == 'Reload':
+            return self.observe(self.call_handle())
+        if name == 'Enable':
             def enable():
                 env['world'].dispatch_enabled = True
-            _, ex = guarded(enable)
-            return self.observe(ex)
+            return self.observe(guarded(enable)[1])
+        if name == 'Access':
+            def access():
+                return env['handle'](), env['rm'][env['key']]
+            got, ex = guarded(access)
+            obs = self.observe(ex)
+            obs['same_world'] = ex is None and got[0] is env['world'] and got[1] is env['world']
+            return obs
+        if name == 'ClearHandle':
+            _, ex = guarded(env['handle'].clear)
+            return {'outcome': exc_name(ex), 'cached': env['handle'].cached}
+        if name == 'Disturb':
+            _, ex = guarded(self.disturb)
+            return {'outcome': exc_name(ex)}
+        if name == 'Rewrite':
+            self.set_desc(self.altdesc)
+            self.write_file()
+            return {'outcome': None}
         return {}       # stage steps of the small-step instance have no counterpart call
+
+    def disturb(self):
+        """What running game code may do between two loads: components change the containers they were
+        built with, resources are dropped from memory."""
+        def mutate(v):
+            if isinstance(v, list):
+                for x in v:
+                    mutate(x)
+                v.append('MUTATED')
+            elif isinstance(v, dict):
+                for x in list(v.values()):
+                    mutate(x)
+                v['MUTATED'] = 1
+        for o in list(self.types.CREATED):
+            for v in list(o.wl_args) + list(o.wl_kwargs.values()):
+                mutate(v)
+        for h in self.env['handles'].values():
+            h.clear()
+
+    def write_file(self):
+        with open(self.env['file'], 'w') as f:
+            json.dump(self.file_json(self.desc, sparse=(self.env['mode'] == 'file2')), f)
+
+    def call_handle(self):
+        """handle() on a handle that is not cached: a load.  The callback log and the instance registry restart."""
+        del self.types.LOG[:]
+        del self.types.CREATED[:]
+        self.env['world'], ex = guarded(self.env['handle'])
+        return ex
 
     def load(self, md):
         d = self.desper
@@ -182,28 +240,24 @@ class WorldLoadAdapter:
         handles = {'r0': self.RecHandle('r0'), 'a.b': self.RecHandle('a.b')}
         rm['r0'] = handles['r0']
         rm['a/b'] = handles['a.b']
-        self.env = env = {'handles': handles, 'rm': rm, 'mode': md, 'world': None, 'handle': None}
+        key = 'worlds/w1' if md == 'file2' else 'w'
+        self.env = env = {'handles': handles, 'rm': rm, 'mode': md, 'world': None, 'handle': None, 'key': key,
+                          'file': os.path.join(self.dir, 'world.json')}
         if md in ('file1', 'file2'):
-            fn = os.path.join(self.dir, 'world.json')
-            try:
-                with open(fn, 'w') as f:
-                    json.dump(self.file_json(self.desc, sparse=(md == 'file2')), f)
-                h = env['handle'] = d.WorldFromFileHandle(fn)
-                rm['w' if md == 'file1' else 'worlds/w1'] = h
-                world, ex = guarded(h)
-            finally:
-                os.remove(fn)
-        else:
-            dd = self.dict_desc(self.desc, rm)
-            if md == 'dict':
-                h = env['handle'] = d.WorldHandle()
-                h.transform_functions.append(lambda hh, ww: d.populate_world_from_dict(ww, dd))
-                rm['w'] = h
-                world, ex = guarded(h)
-            else:
-                world = d.World()
-                _, ex = guarded(lambda: d.populate_world_from_dict(world, dd))
-        env['world'] = world
+            self.write_file()       # stays (and may be rewritten) until the next behaviour overwrites it
+            h = env['handle'] = d.WorldFromFileHandle(env['file'])
+            rm[key] = h
+            return self.observe(self.call_handle())
+        dd = self.dict_desc(self.desc, rm)
+        if md == 'dict':
+            h = env['handle'] = d.WorldHandle()
+            h.transform_functions.append(lambda hh, ww: d.populate_world_from_dict(ww, dd))
+            rm[key] = h
+            return self.observe(self.call_handle())
+        del self.types.LOG[:]
+        del self.types.CREATED[:]
+        world = env['world'] = d.World()
+        _, ex = guarded(lambda: d.populate_world_from_dict(world, dd))
         return self.observe(ex)
 
     def close(self):
@@ -237,7 +291,11 @@ class WorldLoadAdapter:
         return obs
 
     def expect(self, name, args, pre, post):
-        if name not in ('Load', 'Enable'):
+        if name == 'ClearHandle':
+            return {'outcome': None, 'cached': False}
+        if name in ('Disturb', 'Rewrite'):
+            return {'outcome': None}
+        if name not in ('Load', 'Reload', 'Enable', 'Access'):
             return {}
         if post['pc'] == 'failed':
             return {'outcome': post['err']}
@@ -255,6 +313,7 @@ class WorldLoadAdapter:
                 t = (c['cb'], self.id_canon(self.py_id(c['ent'])), True)
             calls.setdefault(c['who'], []).append(t)
         return {
+            **({'same_world': True} if name == 'Access' else {}),
             'outcome': None,
             'dispatch_enabled': x['enabled'],
             'processors': [self.inst_model(p) for p in x['procs']],
